@@ -321,6 +321,7 @@ fn install_sink()
             use hooks::VerifEvent as V;
             let h = match ev
             {
+                V::GarbageCollect => Hook::Gc,
                 V::ReactionScheduled{ kind, target, source } =>
                     Hook::Scheduled{ kind: conv_kind(kind), target: c.name_of(target), source: c.name_of(source) },
                 V::CommandApply{ kind, target, source, data_entity } =>
